@@ -10,6 +10,8 @@ import random
 import record_lib as rl
 import vlib
 
+BULK = 70000     # three of these per direction: 210 000 bytes > recordSizeBoostThreshold (128 KB) + ramp-up
+
 
 def run(ctx):
     rng = random.Random(ctx.seed * 7919 + 27)
@@ -29,6 +31,29 @@ def run(ctx):
     per = 6 if ctx.quick else 40
     jobs, mutctr, n = [], [0], 0
     cells = sorted(grid["forged"], key=lambda c: (c["weak"], c["vers"], c["suite"]))
+    # Bulk exchange: the forged connections keep dynamic record sizing on, so full 2^14-byte records only appear
+    # after ~128 KB in one direction. >= 200 KB each way in three writes, then one write of exactly 2^14 and one of
+    # 2^14+1 bytes at full record size, everything read back and judged by Record_Trace like any other scenario.
+    # quick: one cell per (protection class = kind, MAC size, explicit nonce) x version x weak; thorough: every cell.
+    bulk_cells, seen_cls = [], set()
+    for c in cells:
+        if c["expect"] != "work":
+            continue
+        key = (c["kind"], c["mac"], c["expl"], c["vers"], c["weak"])
+        if ctx.quick and key in seen_cls:
+            continue
+        seen_cls.add(key)
+        bulk_cells.append(c)
+    for c in bulk_cells:
+        ops = []
+        for x, y in (("c", "s"), ("s", "c")):
+            ops += [{"op": "W", "x": x, "n": BULK}] * 3 + [{"op": "D", "x": y},
+                    {"op": "W", "x": x, "n": 16384}, {"op": "W", "x": x, "n": 16385}, {"op": "D", "x": y}]
+        n += 1
+        j = rl.job(n, "forged", c, ops, rng)
+        j["run"] = 61          # long runs keep the (lossless) run-length log of 2 x 240 KB small
+        jobs.append(j)
+    nbulk = len(jobs)
     for c in cells:
         if c["expect"] == "work":
             # always one scenario that moves data both ways at several sizes, the rest drawn from TLC's
@@ -53,11 +78,22 @@ def run(ctx):
         ctx.finding(sig, "MakeConnWithCompleteHandshake(version 0x%04x, suite 0x%04x, weak=%s): %s" % (j["vers"], j["suite"], j["weak"], why),
                     dict(rl.first_bad_event(out["by"][sc], why), scenario=j["ops"]))
     if not out["rej"]:    # (with reproduced rejections the verdict stands on those)
+        # the bulk scenarios must really have reached full-size records in both directions
+        full = {}
+        for j in jobs[:nbulk]:
+            for e in out["by"][j["sc"]]:
+                if e["ev"] == "Read" and e["m"] == 16384:
+                    full[(j["sc"], e["x"])] = True
+        short = [j["sc"] for j in jobs[:nbulk] if not (full.get((j["sc"], "c")) and full.get((j["sc"], "s")))]
+        if short or not nbulk:
+            raise vlib.Machinery("C27: bulk scenarios %s never delivered a full 16384-byte record in both directions" % short[:5])
         rl.need(out["stats"], ["Init.forged", "Init.nil", "Init.free", "Write", "Write.multi", "Write.split", "Read.data", "Read.partial", "Read.timeout", "Nonce"], "C27")
     work = [c for c in cells if c["expect"] == "work"]
     cov = {"evaluations": out["events"], "distinct_nontrivial": len({(j["vers"], j["suite"], j["weak"], str(j["ops"])) for j in jobs}),
            "rule": "every (version 1.0-1.2, suite id of any table + neighbours + extremes, weak off/on) cell forged on both ends; %d TLC-generated "
-                   "read/write sequences per working cell; evaluations = events judged by TLC, distinct = distinct (cell, scenario) pairs" % per,
+                   "read/write sequences per working cell + a bulk exchange (243 KB each way, then writes of 2^14 and 2^14+1 bytes at full record size) "
+                   "for one cell per protection class x version (quick) / every working cell (thorough); evaluations = events judged by TLC, distinct = distinct (cell, scenario) pairs" % per,
+           "bulk_cells": nbulk, "bulk_bytes_each_way": 3 * BULK + 16384 + 16385,
            "cells": len(cells), "cells_must_work": len(work), "cells_must_be_nil": len([c for c in cells if c["expect"] == "nil"]),
            "mc_scenarios": len(scns), "matched_steps": out["stats"], "canaries_rejected": out["canaries"],
            "samples": [{"vers": j["vers"], "suite": j["suite"], "weak": j["weak"], "ops": j["ops"][:4]} for j in jobs[:3]],
